@@ -191,6 +191,30 @@ package putsvc
 //@   callee (object.Object).PayloadSize, (*object.Object).PayloadSize
 //@   pureeffect
 //@   defines result == declaredPayloadSize()
+// ... and only if the SHA-256 of the carried payload (of whatever length, zero included) is
+// the checksum the header declares, and the format validator accepted header and content.
+//@ ghost pred payloadChecksumMatches() bool
+//@ ghost pred formatAccepted() bool
+//@ ghost pred contentAccepted() bool
+//@ callrule c24_local_store_checksum in (*Service).ValidateAndStoreObjectLocally
+//@   property C24 C31
+//@   callee bytes.Equal
+//@   pureeffect
+//@   defines result && resultOf(a1, "(checksum.Checksum).Value") ==> payloadChecksumMatches()
+//@ callrule c24_local_store_format in (*Service).ValidateAndStoreObjectLocally
+//@   property C24 C31
+//@   callee (*object.FormatValidator).Validate
+//@   pureeffect
+//@   defines err == nil ==> formatAccepted()
+//@ callrule c24_local_store_content in (*Service).ValidateAndStoreObjectLocally
+//@   property C24 C31
+//@   callee (*object.FormatValidator).ValidateContent
+//@   pureeffect
+//@   defines err == nil ==> contentAccepted()
+//@ callrule c24_local_store_gate in (*Service).ValidateAndStoreObjectLocally
+//@   property C24 C31
+//@   callee put.putObjectLocally
+//@   requires [checksum_format_and_content_verified_first] payloadChecksumMatches() && formatAccepted() && contentAccepted()
 //@ func (*Service).ValidateAndStoreObjectLocally
 //@   property C24 C31
 //@   ensures [stored_only_with_exactly_the_declared_payload] err == nil ==> declaredPayloadSize() == uint64(carriedPayloadLen())
